@@ -1,3 +1,112 @@
-From Lib Require Import Base.
-Theorem c01_placeholder : True. Proof. exact I. Qed.
-Print Assumptions c01_placeholder.
+(* C01 — suggested rewrites preserve behaviour: the rules of the pure fragment.
+   Lib/PyEval.v is the model of the Python operations (tied to CPython by the C01
+   correspondence); each theorem says original and replacement have the same outcome for
+   every operand it quantifies over.  A guard is written out where the unguarded rule is
+   false, and the refutation beside it carries the witness. *)
+From Coq Require Import QArith.
+From Lib Require Import Base PyEval PyRules.
+Open Scope list_scope.
+
+(* FURB108  x == y or x == z  ->  x in (y, z) *)
+Theorem furb108_sound_unless_nan : forall x y z,
+  same_object_same_value x y -> same_object_same_value x z -> reflexive (val x) -> lhs_108 x y z = rhs_108 x y z.
+Proof. exact r108_guarded. Qed.
+Print Assumptions furb108_sound_unless_nan.
+Theorem furb108_unsound_for_nan : exists x y z,
+  same_object_same_value x y /\ same_object_same_value x z /\ lhs_108 x y z <> rhs_108 x y z.
+Proof. exact r108_refuted. Qed.
+Print Assumptions furb108_unsound_for_nan.
+
+(* FURB171  x in (y,)  ->  x == y *)
+Theorem furb171_sound_unless_nan : forall x y, same_object_same_value x y -> reflexive (val x) -> lhs_171 x y = rhs_171 x y.
+Proof. exact r171_guarded. Qed.
+Print Assumptions furb171_sound_unless_nan.
+Theorem furb171_unsound_for_nan : exists x y, same_object_same_value x y /\ lhs_171 x y <> rhs_171 x y.
+Proof. exact r171_refuted. Qed.
+Print Assumptions furb171_unsound_for_nan.
+
+(* FURB110  x if x else y  ->  x or y : the very same object, for every operand *)
+Theorem furb110_sound : forall x y, lhs_110 x y = rhs_110 x y.
+Proof. exact r110_all. Qed.
+Print Assumptions furb110_sound.
+
+(* FURB114  not not x  ->  bool(x) *)
+Theorem furb114_sound : forall x, lhs_114 x = rhs_114 x.
+Proof. exact r114_all. Qed.
+Print Assumptions furb114_sound.
+
+(* FURB124  x == y and x == z  ->  x == y == z *)
+Theorem furb124_sound_scalars : forall x y z, scalar (val x) -> scalar (val y) -> scalar (val z) -> lhs_124 x y z = rhs_124 x y z.
+Proof. exact r124_scalars. Qed.
+Print Assumptions furb124_sound_scalars.
+
+(* FURB136  x if x < y else y -> min(x, y) and the max form: ints and strs *)
+Theorem furb136_min_sound_int : forall x y a b, val x = VInt a -> val y = VInt b -> oval (lhs_136_min x y) = oval (rhs_136_min x y).
+Proof. exact r136_min_int. Qed.
+Print Assumptions furb136_min_sound_int.
+Theorem furb136_max_sound_int : forall x y a b, val x = VInt a -> val y = VInt b -> oval (lhs_136_max x y) = oval (rhs_136_max x y).
+Proof. exact r136_max_int. Qed.
+Print Assumptions furb136_max_sound_int.
+Theorem furb136_min_sound_str : forall x y s t, val x = VStr s -> val y = VStr t -> oval (lhs_136_min x y) = oval (rhs_136_min x y).
+Proof. exact r136_min_str. Qed.
+Print Assumptions furb136_min_sound_str.
+Theorem furb136_unsound_signed_zero : oval (lhs_136_min fzero fnegzero) <> oval (rhs_136_min fzero fnegzero).
+Proof. exact r136_refuted_signed_zero. Qed.
+Print Assumptions furb136_unsound_signed_zero.
+Theorem furb136_unsound_nan : oval (lhs_136_min nan1 int0) <> oval (rhs_136_min nan1 int0).
+Proof. exact r136_refuted_nan. Qed.
+Print Assumptions furb136_unsound_nan.
+
+(* FURB143  x or <empty value of x's type>  ->  x : same value except for floats *)
+Theorem furb143_same_value : forall x d, zero_like (val x) = Some d -> not_float (val x) -> oval (lhs_143 x d) = oval (rhs_143 x d).
+Proof. exact r143_value. Qed.
+Print Assumptions furb143_same_value.
+Theorem furb143_unsound_signed_zero : oval (lhs_143 fnegzero (VFloat (FNum 0))) <> oval (rhs_143 fnegzero (VFloat (FNum 0))).
+Proof. exact r143_refuted_signed_zero. Qed.
+Print Assumptions furb143_unsound_signed_zero.
+Theorem furb143_not_same_object : lhs_143 empty_list1 (VList []) <> rhs_143 empty_list1 (VList []).
+Proof. exact r143_refuted_identity. Qed.
+Print Assumptions furb143_not_same_object.
+
+(* FURB149  comparisons of a bool with True/False *)
+Theorem furb149_is_true_sound : forall b c, val b = VBool c -> oval (lhs_149_is_true b) = oval (rhs_149_pos b).
+Proof. exact r149_is_true. Qed.
+Print Assumptions furb149_is_true_sound.
+Theorem furb149_is_false_sound : forall b c, val b = VBool c -> oval (lhs_149_is_false b) = oval (rhs_149_neg b).
+Proof. exact r149_is_false. Qed.
+Print Assumptions furb149_is_false_sound.
+Theorem furb149_eq_true_sound : forall b c, val b = VBool c -> oval (lhs_149_eq_true b) = oval (rhs_149_pos b).
+Proof. exact r149_eq_true. Qed.
+Print Assumptions furb149_eq_true_sound.
+
+(* FURB168/169  isinstance(x, type(None)), type(x) is type(None)  ->  x is None *)
+Theorem furb168_sound : forall x, lhs_168 x = rhs_168 x.
+Proof. exact r168_all. Qed.
+Print Assumptions furb168_sound.
+
+(* FURB191 *)
+Theorem furb191_is_sound : forall b, oval (lhs_191_is b) = oval (rhs_191 b).
+Proof. exact r191_is_all. Qed.
+Print Assumptions furb191_is_sound.
+Theorem furb191_in_sound_bool : forall b c, val b = VBool c -> oval (lhs_191_in b) = oval (rhs_191 b).
+Proof. exact r191_in_bool. Qed.
+Print Assumptions furb191_in_sound_bool.
+Theorem furb191_in_unsound_int : oval (lhs_191_in (fresh (VInt 1))) <> oval (rhs_191 (fresh (VInt 1))).
+Proof. exact r191_in_refuted_int. Qed.
+Print Assumptions furb191_in_unsound_int.
+
+(* FURB192  sorted(l)[0] -> min(l), sorted(l)[-1] -> max(l): every list of ints, the empty one included *)
+Theorem furb192_first_is_min_int : forall l, lhs_192_first l = rhs_192_min l.
+Proof. exact r192_first_min_int. Qed.
+Print Assumptions furb192_first_is_min_int.
+Theorem furb192_last_is_max_int : forall l, lhs_192_last l = rhs_192_max l.
+Proof. exact r192_last_max_int. Qed.
+Print Assumptions furb192_last_is_max_int.
+
+(* FURB115  len(x) == 0 -> not x,  len(x) >= 1 -> bool(x) *)
+Theorem furb115_eq0_sound : forall x, sized (val x) -> lhs_115_eq0 x = rhs_115_not x.
+Proof. exact r115_eq0. Qed.
+Print Assumptions furb115_eq0_sound.
+Theorem furb115_ge1_sound : forall x, sized (val x) -> lhs_115_ge1 x = rhs_115_bool x.
+Proof. exact r115_ge1. Qed.
+Print Assumptions furb115_ge1_sound.
